@@ -230,6 +230,11 @@ def lifecycle_scenario(i, cause, point, pending, opts=None, after_api=False, bef
     elif point == "init":
         sc["init_ctl"] = {"pause": True}
         label = "init"
+    elif point == "released":
+        # the application has released the terminal itself (ReleaseTerminal) and not taken it back
+        if cause in ("panic", "readerr"):       # no callback to panic in; nobody reads the input while it is released
+            return None
+        script += [W("idle"), DO("release-terminal"), DO("sleep", us=5000)]
     elif point == "exec":
         # inside the external command: the terminal is released
         trigger = B("exec", pause=True, cb=True)
@@ -254,7 +259,7 @@ def lifecycle_scenario(i, cause, point, pending, opts=None, after_api=False, bef
         return None
     # (Kill while Init runs is after renderer.start(): inside the model.  Kill racing the lines of Run before that is
     #  outside every property: p.renderer / p.handlers are written unsynchronised there.)
-    if point != "init" and point != "idle":
+    if point not in ("init", "idle", "released"):
         script.append(DO("go-send", msg=trigger))
     if point == "view":
         view["pause_after"] = "u:1"
